@@ -200,6 +200,10 @@ class ExprMixin:
             for x in (a, b):
                 if x.k == "val" and self.entails(Val.is_str(x.r)):
                     return TV("str", z3.simplify(z3.Concat(self.as_str(a), self.as_str(b))))
+            if tb in ("cons", "nil") or b.hint == "tuple" or (b.k == "py" and isinstance(b.r, (list, tuple))):
+                # <value of unknown type> + <tuple> (e.g. e.args += (...,)): some tuple, contents not modelled
+                f = z3.Function("tuple_concat", Val, Val, Val)
+                return TV("val", f(self.to_val(a), self.to_val(b)), "tuple")
             raise Unsupported(f"+ on unknown kinds at line {getattr(n, 'lineno', '?')}")
         if isinstance(op, ast.Sub):
             return TV("int", z3.simplify(self.as_int(a) - self.as_int(b)))
@@ -328,8 +332,11 @@ class ExprMixin:
             if r is not None:
                 return r
         if cont.k == "val" and not h:
-            # unknown container kind: a string (substring test) or an object
+            # unknown container kind: a string (substring test) or an object; `x in <bool/int/None>` raises
+            # TypeError: argument of type '...' is not iterable
             v = cont.r
+            if not self.in_spec:
+                self.require(z3.Or(Val.is_str(v), Val.is_ref(v)), "TypeError", "argument is not iterable")
             iv = self.to_val(item)
             f = z3.Function("obj_contains", core.IntS, Val, core.BoolS)
             return z3.If(Val.is_str(v), z3.And(Val.is_str(iv), z3.Contains(Val.s(v), Val.s(iv))),
@@ -626,6 +633,10 @@ class ExprMixin:
             r = self.user_getitem(obj, idx, n)
             if r is not None:
                 return r
+            if h[4:] in SCHEMAS and not self.in_spec:
+                # an instance of a class whose shape is known and that has no __getitem__: Python raises
+                # TypeError: '<Class>' object is not subscriptable
+                raise self.implicit("TypeError", f"'{h[4:]}' object is not subscriptable")
         if obj.k == "val" and (not h or h == "obj") and not self.in_spec:
             # object of unknown class: its __getitem__ is an uninterpreted pure lookup
             g = z3.Function("obj_getitem", core.IntS, Val, Val)
